@@ -352,6 +352,111 @@ def check_api(case) -> Verdict:
     return Verdict(True, labels=labels, nontrivial=nontrivial)
 
 
+def check_api_freeze_once(case) -> Verdict:
+    """After freeze() the text is generated once: a program whose output differs per invocation shows the same
+    output through every later access."""
+    buff, text, trs, ops = case['buff'], case['text'], case['trs'], case['ops']
+    api = _Api.get()
+    d, env, fac = api.new_case(buff)
+    labels = ['B:%d' % buff, 'depth:%d' % len(trs)]
+    for tr in trs:
+        labels.extend('tr:' + t for t in model.tr_tags(tr))
+    labels = sorted(set(labels))
+    fname = 'c%d_cnt.txt' % api.n
+    counter = str(api.home / ('c%d_counter' % api.n))
+    syntax = []
+    try:
+        with open(str(api.home / fname), 'wb') as f:
+            f.write(text.encode('utf-8'))
+        try:
+            src = '-stdout-from ' + gen.counter_command(counter, str(api.home / fname))
+            syntax.append(src)
+            obj = api.primitive(api.ss_parser, src, env)
+            for tr in trs:
+                src = gen.render_tr(tr)
+                syntax.append(src)
+                obj = api.primitive(api.tr_parser, src, env).transform(obj)
+        except Exception as ex:
+            return fail('freeze-once/build/exception/' + type(ex).__name__,
+                        {'case': case, 'syntax': syntax,
+                         'exception': '%s: %s\n%s' % (type(ex).__name__, ex, traceback.format_exc(limit=6))},
+                        labels=labels)
+
+        def ref(k):
+            node = ['prog', '%d\n%s' % (k, text), 'out', False]
+            for tr in trs:
+                node = ['tr', tr, node]
+            return model.ref_text(node)
+
+        history = []
+        frozen = False
+        frozen_k = None
+        accesses_after = set()
+        max_k = 4
+        for i, (op, arg) in enumerate(ops):
+            step = 'op %d: %s%s' % (i, op, '' if arg is None else '(%d)' % arg)
+            try:
+                what, got = _access(api, obj, op, arg, d, i)
+            except Exception as ex:
+                return fail('freeze-once/%s/exception/%s' % (op, type(ex).__name__),
+                            {'step': step, 'history': history, 'case': case, 'syntax': syntax,
+                             'exception': '%s: %s\n%s' % (type(ex).__name__, ex, traceback.format_exc(limit=8))},
+                            labels=labels, nontrivial=True)
+            history.append(step)
+            max_k += 3
+            if op == 'freeze':
+                frozen = True
+                continue
+            if what == 'none':
+                continue
+            ks = []
+            for k in range(1, max_k):
+                expected = ref(k)
+                if what == 'text':
+                    ok = got == expected
+                elif what == 'bytes':
+                    ok = got == expected.encode('utf-8')
+                elif what == 'lines':
+                    ok = got == list(model.nl_split(expected))
+                elif what == 'prefix-lines':
+                    ok = got == list(model.nl_split(expected))[:arg]
+                else:
+                    ok = got[0] == model.head_of(model.nl_split(expected), arg)
+                if ok:
+                    ks.append(k)
+            detail = {'step': step, 'history': history, 'case': case, 'syntax': syntax,
+                      'observed': got.decode('utf-8', errors='replace') if isinstance(got, bytes) else got,
+                      'value_for_invocation_1': ref(1)}
+            if not ks:
+                return fail('freeze-once/%s/%s/no-invocation-gives-this-text'
+                            % (op, 'after-freeze' if frozen else 'before-freeze'), detail, labels=labels,
+                            nontrivial=True)
+            if frozen:
+                accesses_after.add(op)
+                # an access that shows only part of the text may be compatible with several invocation numbers
+                if frozen_k is None:
+                    frozen_k = set(ks)
+                else:
+                    both = frozen_k & set(ks)
+                    if not both:
+                        detail['invocations_seen_after_freeze'] = sorted(frozen_k)
+                        detail['this_access_shows_invocation'] = ks
+                        return fail('freeze-once/%s/text-changed-after-freeze' % op, detail, labels=labels,
+                                    nontrivial=True)
+                    frozen_k = both
+        if len(accesses_after) >= 2:
+            labels.append('two-access-kinds-after-freeze')
+        return Verdict(True, labels=labels, nontrivial=len(accesses_after) >= 2)
+    finally:
+        if d.exists():
+            shutil.rmtree(str(d), ignore_errors=True)
+        for p in (str(api.home / fname), counter):
+            try:
+                os.unlink(p)
+            except OSError:
+                pass
+
+
 def _diff_class(expected, actual):
     if actual == expected:
         return 'same'
@@ -370,7 +475,220 @@ def _diff_class(expected, actual):
     return 'other'
 
 
+# ======================================================================================================
+# Layer B: CLI
+# ======================================================================================================
+import re
+
+_LINE_RE = re.compile(r't\.case, line (\d+)')
+_IDENTS = ('PASS', 'FAIL', 'HARD_ERROR', 'INTERNAL_ERROR', 'VALIDATION_ERROR', 'SYNTAX_ERROR', 'FILE_ACCESS_ERROR')
+
+
+def _cli_text_labels(texts, buff):
+    labels = ['B:%d' % buff]
+    for t in texts:
+        labels.extend(gen.flavour_labels(t, buff))
+    return sorted(set(labels))
+
+
+def _failing_line(r):
+    m = _LINE_RE.search(r.err) or _LINE_RE.search(r.out)
+    return int(m.group(1)) if m else None
+
+
+def _actual_node(kind, text, tr):
+    if kind == 'cnt':
+        # a program whose output starts with the number of times it has been run: an assertion runs it once
+        leaf = ['prog', '1\n' + text, 'out', False]
+    else:
+        leaf = ['prog', text, 'out', False] if kind == 'prog' else ['file', text]
+    return gen.as_rendered(['tr', tr, leaf]) if tr is not None else leaf
+
+
+def build_verdict_case(case):
+    """-> (case text, files, [(first line, last line, instruction, actual node, reference verdict)])"""
+    text, tr = case['text'], case['tr']
+    files = {'actual.txt': text}
+    out = ['[setup]\n']
+    if any(i['a'] == 'lit' for i in case['ins']):
+        src = gen.render_source(['lit', text, case.get('lit_form', 'q')], files)
+        out.append('file lit.txt = ' + src + ('' if src.endswith('\n') else '\n'))
+    out.append('[act]\n$ cat {HOME}/actual.txt\n[assert]\n')
+    line = ''.join(out).count('\n') + 1
+    spans = []
+    for idx, ins in enumerate(case['ins']):
+        node = _actual_node(ins['a'], text, tr)
+        ref = model.ref_verdict(node, ins['m'])
+        src = gen.render_instruction(ins, tr, not ref, files, idx)
+        n = src.count('\n')
+        spans.append((line, line + n - 1, ins, node, ref))
+        line += n
+        out.append(src)
+    return ''.join(out), files, spans
+
+
+def check_cli_verdicts(case) -> Verdict:
+    buff = case['buff']
+    case_text, files, spans = build_verdict_case(case)
+    t_actual = model.ref_text(_actual_node('file', case['text'], case['tr']))
+    labels = _cli_text_labels([case['text']], buff)
+    if case['tr'] is not None:
+        labels.extend('tr:' + t for t in model.tr_tags(case['tr']))
+    for _, _, ins, _, ref in spans:
+        labels.append('ins:%s/%s/%s' % (ins['a'], ins['w'], ins['m'][0]))
+        labels.append('ref-verdict:%s' % ref)
+        if ins['m'][0] == 'eq':
+            labels.append('expected-kind:' + ins['m'][1][0])
+    labels = sorted(set(labels))
+    nontrivial = gen.is_special(case['text'], buff) or gen.is_special(t_actual, buff)
+    with driver.Workspace() as ws:
+        for name, content in files.items():
+            ws.write(name, content.encode('utf-8'))
+        ws.write('t.case', case_text)
+        r = driver.run_inproc(ws, ['t.case'], mem_buff_size=buff)
+    detail = {'buff': buff, 'case_text': case_text, 'files': files, 'exit': r.exit_code, 'out': r.out[:300],
+              'err': r.err[:1500], 'exception': r.exception}
+    if r.timed_out:
+        return Verdict(inconclusive=True, labels=labels)
+    if r.exception:
+        return fail('cli-verdict/escaped-exception', detail, labels=labels, nontrivial=nontrivial)
+    ident = r.first_out_line
+    if r.exit_code == 0 and ident == 'PASS':
+        return Verdict(True, labels=labels, nontrivial=nontrivial)
+    ln = _failing_line(r)
+    span = [s for s in spans if ln is not None and s[0] <= ln <= s[1]]
+    if ident in ('SYNTAX_ERROR', 'VALIDATION_ERROR', 'FILE_ACCESS_ERROR') or not span:
+        return fail('cli-verdict/case-not-executed/%s' % ident, detail, labels=labels, nontrivial=nontrivial)
+    first, last, ins, node, ref = span[0]
+    detail.update({'failing_instruction': ins, 'actual_source': node, 'reference_verdict_of_matcher': ref,
+                   'actual_text': model.ref_text(node)})
+    tags = model.defect_flips_verdict(node, ins['m'], buff)
+    bucket = 'cli-verdict/%s/%s/%s/ref-%s' % (ident, ins['w'], ins['m'][0], ref)
+    if ident == 'FAIL':
+        pass
+    elif 'UnicodeDecodeError' in r.err or 'codec can' in r.err:
+        cl = model.closure(node, buff)
+        tags = cl.values.get(model.UNDECODABLE)
+        if tags is None and ins['m'][0] == 'eq':
+            tags = model.closure(ins['m'][1], buff).values.get(model.UNDECODABLE)
+    else:
+        tags = None
+    if tags:
+        detail['defect_model'] = 'verdict predicted by ' + '+'.join(sorted(tags))
+        return Verdict(ok=False, known=model.known_id(tags), bucket=bucket, detail=detail,
+                       labels=labels + ['known:' + '+'.join(sorted(tags))], nontrivial=nontrivial)
+    return fail(bucket, detail, labels=labels, nontrivial=nontrivial)
+
+
+def build_files_case(case):
+    files = {}
+    out = ['[setup]\n']
+    spans = []
+    line = 2
+    for i, src in enumerate(case['srcs']):
+        s = 'file o%d.txt = %s' % (i + 1, gen.render_source(src, files))
+        if not s.endswith('\n'):
+            s += '\n'
+        spans.append((line, line + s.count('\n') - 1, 'o%d.txt' % (i + 1), gen.as_rendered(src)))
+        line += s.count('\n')
+        out.append(s)
+    if case['stdin'] is not None:
+        s = 'stdin = ' + gen.render_source(case['stdin'], files)
+        if not s.endswith('\n'):
+            s += '\n'
+        spans.append((line, line + s.count('\n') - 1, 'stdin', gen.as_rendered(case['stdin'])))
+        out.append(s)
+    out.append('[act]\n$ cat\n')
+    return ''.join(out), files, spans
+
+
+def check_cli_files(case) -> Verdict:
+    buff = case['buff']
+    case_text, files, spans = build_files_case(case)
+    texts = []
+    for _, _, _, src in spans:
+        texts.extend(model.leaf_texts(src))
+    labels = _cli_text_labels(texts, buff)
+    for _, _, name, src in spans:
+        for n in model.nodes_preorder(src):
+            if n[0] == 'tr':
+                labels.extend('tr:' + t for t in model.tr_tags(n[1]))
+            else:
+                labels.append('node:' + n[0])
+    labels = sorted(set(labels))
+    nontrivial = any(gen.is_special(t, buff) for t in texts)
+    observed = {}
+    with driver.Workspace() as ws:
+        for name, content in files.items():
+            ws.write(name, content.encode('utf-8'))
+        ws.write('t.case', case_text)
+        r = driver.run_inproc(ws, ['--keep', 't.case'], mem_buff_size=buff)
+        sb = r.out.strip()
+        if r.exit_code == 0 and sb and os.path.isdir(sb):
+            for _, _, name, _ in spans:
+                p = os.path.join(sb, 'result', 'stdout') if name == 'stdin' else os.path.join(sb, 'act', name)
+                try:
+                    with open(p, 'rb') as f:
+                        observed[name] = f.read()
+                except OSError as ex:
+                    observed[name] = None
+    detail = {'buff': buff, 'case_text': case_text, 'files': files, 'exit': r.exit_code, 'out': r.out[:300],
+              'err': r.err[:1500], 'exception': r.exception}
+    if r.timed_out:
+        return Verdict(inconclusive=True, labels=labels)
+    if r.exception:
+        return fail('cli-files/escaped-exception', detail, labels=labels, nontrivial=nontrivial)
+    known = None
+    if r.exit_code != 0:
+        ident = r.first_err_line
+        ln = _failing_line(r)
+        span = [s for s in spans if ln is not None and s[0] <= ln <= s[1]]
+        if not span and 'In [act]' in r.err:
+            span = [s for s in spans if s[2] == 'stdin']  # the stdin of the action is read when it is started
+        if span and ('UnicodeDecodeError' in r.err or 'codec can' in r.err):
+            tags = model.closure(span[0][3], buff).values.get(model.UNDECODABLE)
+            if tags:
+                detail['defect_model'] = 'undecodable text predicted by ' + '+'.join(sorted(tags))
+                return Verdict(ok=False, known=model.known_id(tags), bucket='cli-files/%s/undecodable' % ident,
+                               detail=detail, labels=labels + ['known:' + '+'.join(sorted(tags))],
+                               nontrivial=nontrivial)
+        return fail('cli-files/not-passed/%s' % ident, detail, labels=labels, nontrivial=nontrivial)
+    for _, _, name, src in spans:
+        expected = model.ref_text(src)
+        got = observed.get(name)
+        if got == expected.encode('utf-8'):
+            continue
+        d = dict(detail)
+        d.update({'file': name, 'source': src, 'expected_text': expected,
+                  'observed': None if got is None else got.decode('utf-8', errors='backslashreplace')})
+        if got is None:
+            return fail('cli-files/%s/missing' % ('stdin' if name == 'stdin' else 'file'), d, labels=labels,
+                        nontrivial=nontrivial)
+        try:
+            tags = model.classify_text(src, buff, got.decode('utf-8'))
+        except UnicodeDecodeError:
+            tags = model.classify_text(src, buff, None)
+        bucket = 'cli-files/%s/%s' % ('stdin' if name == 'stdin' else 'file',
+                                      _diff_class(expected, got.decode('utf-8', errors='replace')))
+        if tags:
+            d['defect_model'] = 'predicted by ' + '+'.join(sorted(tags))
+            if known is None:
+                known = Verdict(ok=False, known=model.known_id(tags), bucket=bucket, detail=d,
+                                labels=labels + ['known:' + '+'.join(sorted(tags))], nontrivial=nontrivial)
+            continue
+        return fail(bucket, d, labels=labels, nontrivial=nontrivial)
+    if known is not None:
+        return known
+    return Verdict(True, labels=labels, nontrivial=nontrivial)
+
+
 SUBS = [
-    Sub('api_access', check_api, strategy=lambda tier: gen.api_cases(),
+    Sub('api_access', check_api, strategy=lambda tier: gen.api_cases(big=(tier == 'thorough')),
         budget={'quick': 20000, 'thorough': 600000}),
+    Sub('api_freeze_once', check_api_freeze_once, strategy=lambda tier: gen.freeze_once_cases(),
+        budget={'quick': 1500, 'thorough': 40000}),
+    Sub('cli_files', check_cli_files, strategy=lambda tier: gen.cli_file_cases(),
+        budget={'quick': 1500, 'thorough': 40000}),
+    Sub('cli_verdicts', check_cli_verdicts, strategy=lambda tier: gen.cli_verdict_cases(),
+        budget={'quick': 2000, 'thorough': 60000}),
 ]
